@@ -237,6 +237,62 @@ def gen_deep_directed(rng, cap=1500, min_layers=20):
     return gen_perm_graph(rng, cap, multiword=True)
 
 
+def gen_repeated_closed(rng, cap=1500):
+    """Inverse-closed permutation generator LISTS in which a non-involution occurs more often than its inverse (and in odd orders):
+    [p, p, p^-1, ...] - the inverse map must pair every copy with an index holding the inverse."""
+    for _ in range(200):
+        n = rng.randint(3, 7)
+        p = rand_perm(rng, n)
+        if p == inverse_perm(p):
+            continue
+        gens = [p] * rng.randint(2, 3) + [inverse_perm(p)] * rng.randint(1, 2)
+        for _ in range(rng.randint(0, 2)):
+            q = rand_perm(rng, n)
+            gens += [q, inverse_perm(q)] if rng.random() < 0.7 else [q, q, inverse_perm(q)]
+        if rng.random() < 0.3:
+            a, b = rng.sample(range(n), 2)
+            x = list(range(n)); x[a], x[b] = x[b], x[a]
+            gens.append(x)
+        rng.shuffle(gens)
+        central = list(range(n)) if rng.random() < 0.6 else [rng.randrange(min(3, n)) for _ in range(n)]
+        gd = {"kind": "perm", "gens": gens, "central": central}
+        if ref_bfs(gd, [central], cap) is not None:
+            return gd
+    return gen_perm_graph(rng, cap)
+
+
+def gen_colliding_coset(rng, cap=1500):
+    """Coset graphs with repeated colours under MANY generators (all transpositions / prefix reversals / adjacent swaps): several generators
+    send a state to the same neighbour (or fix it), and layers have dozens of states."""
+    for _ in range(100):
+        n = rng.randint(6, 8)
+        kind = rng.random()
+        if kind < 0.5:
+            gens = []
+            for a in range(n):
+                for b in range(a + 1, n):
+                    x = list(range(n)); x[a], x[b] = x[b], x[a]
+                    gens.append(x)
+        elif kind < 0.8:
+            gens = [list(range(k - 1, -1, -1)) + list(range(k, n)) for k in range(2, n + 1)]
+        else:
+            gens = []
+            for a in range(n - 1):
+                x = list(range(n)); x[a], x[a + 1] = x[a + 1], x[a]
+                gens.append(x)
+            gens.append([(i + 1) % n for i in range(n)])
+            gens.append([(i - 1) % n for i in range(n)])
+        colours = rng.randint(2, 3)
+        central = sorted(rng.randrange(colours) for _ in range(n))
+        if len(set(central)) < 2:
+            continue
+        gd = {"kind": "perm", "gens": gens, "central": central}
+        r = ref_bfs(gd, [central], cap)
+        if r is not None and len(r[1]) >= 30:
+            return gd
+    return gen_perm_graph(rng, cap)
+
+
 def gen_graph(rng, cap=1500):
     """Mostly graphs with a non-trivial orbit (>= 12 vertices, >= 4 layers); a quarter are unconstrained (tiny orbits included)."""
     want_big = rng.random() < 0.75
@@ -247,8 +303,10 @@ def gen_graph(rng, cap=1500):
             gd = gen_perm_graph(rng, cap)
         elif r < 0.68:
             gd = gen_perm_graph(rng, cap, multiword=True)
-        elif r < 0.77:
+        elif r < 0.74:
             gd = gen_deep_directed(rng, cap)
+        elif r < 0.78:
+            gd = gen_repeated_closed(rng, cap)
         else:
             gd = gen_matrix_graph(rng, cap)
         if not want_big:
